@@ -5,9 +5,20 @@ import itertools
 RULE = ("exhaustive: every logger name over {a,:} up to length 7 alone and paired with a fixed partner "
         "(before and after it); appender lists over 3 names up to 4 items; then random mixes (up to 5 "
         "appenders with repeats, up to 6 loggers with repeated/malformed/unicode names, up to 3 references "
-        "per owner over declared and undeclared names, all orders random). non-trivial = at least one "
+        "per owner over declared and undeclared names, all orders random); then CONFUSABLE names: every "
+        "ordered pair of appender names from a family differing only by surrounding/inner spaces, tabs, "
+        "newlines, NBSP, case, '-' vs '_', accents, NFC/NFD or emptiness, each pair declared together and "
+        "referenced by the root and by a logger through a third family member, the same for logger-name "
+        "pairs, and random mixes drawn from these families. non-trivial = at least one "
         "offending item (duplicate, malformed name or dangling reference) AND at least one kept logger; "
         "distinct = distinct case line")
+# names that a "tolerant" comparison (trim, case folding, separator or unicode normalisation) would
+# identify although they are different strings; the model and the real code compare exactly
+CONF_APPS = ["file", "file ", " file", " file ", "file\t", "\tfile", "file\n", "file\r\n", "file\u00a0", "file  ",
+             "File", "FILE", "fi le", "fi-le", "fi_le", "fil\u00e9", "file\u0301", "fil\u0435", "", " ", "\t", "  "]
+CONF_LOGGERS = ["a::b", "a::b ", " a::b", "a::b\t", "A::b", "a::B", "a ::b", "a:: b", "a: :b", "a::b\n", "a b",
+                " ", "\t", "a-b::c", "a_b::c", "\u00e9::b", "e\u0301::b", "a::b::", " ::a", "a:: "]
+
 ASSUMPTIONS = ["appender identity is observed through the recording appender's Debug output",
                "error ORDER is not constrained by the property: errors are compared as multisets"]
 EXHAUSTIVE = {"quick": False, "thorough": False}
@@ -42,6 +53,32 @@ def cases(rng, tier):
         for _l in range(rng.below(7)):
             nm = rng.choice(pool_names[:rng.range(2, len(pool_names))])
             ls.append([nm, rng.below(6), [rng.choice(refpool) for _ in range(rng.below(4))], rng.below(2)])
+        out.append([apps, rng.below(6), root_refs, ls])
+    # confusable appender names / references (exact comparison is what Logger::new relies on)
+    fam = CONF_APPS if tier != "quick" else CONF_APPS[:16] + CONF_APPS[18:20]
+    for i, x in enumerate(fam):
+        for j, y in enumerate(fam):
+            z = fam[(i + j + 1) % len(fam)]
+            out.append([[x, y], 3, [y, z], [["l", 4, [x, z], 1]]])
+            if i != j:
+                out.append([[x], 3, [y], [["l", 4, [y, x], 0]]])
+    lf = CONF_LOGGERS
+    for i, x in enumerate(lf):
+        for j, y in enumerate(lf):
+            out.append([["p"], 3, ["p"], [[x, 4, ["p"], 1], [y, 2, [], 0]]])
+    n_conf = 600 if tier == "quick" else 20000
+    for _ in range(n_conf):
+        base = rng.choice(CONF_APPS)
+        near = [base, base + " ", " " + base, base.strip(), base.upper(), base.replace("-", "_"), base + "\t"]
+        pool = near + [rng.choice(CONF_APPS) for _ in range(2)]
+        apps = [rng.choice(pool) for _ in range(rng.range(1, 4))]
+        root_refs = [rng.choice(pool) for _ in range(rng.below(4))]
+        ls = []
+        for _l in range(rng.below(4)):
+            nm = rng.choice(CONF_LOGGERS) if rng.chance(1, 2) else rng.choice(pool_names)
+            if rng.chance(1, 4):
+                nm = rng.choice([nm + " ", " " + nm, nm.upper(), nm + "\t"])
+            ls.append([nm, rng.below(6), [rng.choice(pool) for _ in range(rng.below(4))], rng.below(2)])
         out.append([apps, rng.below(6), root_refs, ls])
     return out
 
